@@ -73,10 +73,13 @@ fn do_load(syms: &Syms, dir: &str, skip_icu: bool) -> Value {
         Ok(Err(e)) => json!({"outcome": "Err", "errClass": error_class(&e), "errText": e.to_string(), "errQuoted": quoted_segments(&e.to_string())}),
         Ok(Ok((bk, warnings, files))) => {
             let proj = run_caught(std::panic::AssertUnwindSafe(|| builders_keys(syms, &bk)));
-            let warns: Vec<Value> = warnings.into_inner().iter().map(warning).collect();
+            let ws = warnings.into_inner();
+            let warns: Vec<Value> = ws.iter().map(warning).collect();
+            // the text a user is shown (the macro puts it in a `#[deprecated(note = ..)]`)
+            let warn_texts: Vec<String> = ws.iter().map(|w| w.to_string()).collect();
             let files: Vec<String> = files.iter().map(|f| rel(dir, f)).collect();
             match proj {
-                Ok(units) => json!({"outcome": "Ok", "units": units, "warns": warns, "files": files}),
+                Ok(units) => json!({"outcome": "Ok", "units": units, "warns": warns, "warnTexts": warn_texts, "files": files}),
                 Err(msg) => json!({"outcome": "Panic", "panic": format!("projection: {}", msg)}),
             }
         }
